@@ -5,6 +5,7 @@
 -/
 import SolverzModel.Core.Ctl.Rodas
 import SolverzModel.Proofs.Rodas
+import SolverzModel.Proofs.RodasEvents
 namespace Solverz
 open RodasEnv
 
@@ -122,6 +123,85 @@ theorem C10_zero_at_step_end_reported :
     let s2 : RodasState ℚ := E.doEvents (1/2) { s1 with t := 1, told := 1/2 }
     s1.te = [] ∧ s1.value = [0] ∧ s1.vref = [-1/2] ∧ s2.te.length = 1 ∧
       (s2.te.all fun τ => decide (1/2 ≤ τ ∧ τ ≤ 1/2 + 1/1000000000000000000000000000)) = true := by
+  decide +kernel
+
+/-! ### arbitrary event functions (`gfun`): what `event(t, y_dense(t))` is along one accepted step -/
+
+/-- **Soundness of the search for every event function.**  Start the bisection from a bracket `[tL, tR]` whose end values are the
+event function's and have strictly opposite signs, with any trial point inside (the secant start).  Whatever the function does in
+between — non-monotone, several zeros, discontinuous —, the returned time lies in a sub-bracket `[a, b] ⊆ [tL, tR]` across which
+component `i` genuinely changes sign, and either the returned time is an exact zero, or `b − a < tol`, or the 100 passes are used up
+and `b − a ≤ (tR − tL) / 2^(fuel − 1)`. -/
+theorem C10_search_sound (E : RodasEnv ℚ) (hO : E.O = ratO) (hh : E.half = 1 / 2) (i : Nat) (tol : ℚ) (fuel : Nat)
+    (tL tR tev : ℚ) (le : Option ℚ) (h1 : tL ≤ tev) (h2 : tev ≤ tR)
+    (hopp : E.opp (E.evalAt i tL) (E.evalAt i tR) = true) :
+    ∃ a b, tL ≤ a ∧ a ≤ (E.bisect i tol fuel (tL, tR, tev, E.evalAt i tL, E.evalAt i tR) le).1 ∧
+      (E.bisect i tol fuel (tL, tR, tev, E.evalAt i tL, E.evalAt i tR) le).1 ≤ b ∧ b ≤ tR ∧
+      E.opp (E.evalAt i a) (E.evalAt i b) = true ∧
+      (E.evalAt i (E.bisect i tol fuel (tL, tR, tev, E.evalAt i tL, E.evalAt i tR) le).1 = 0 ∨ b - a < tol ∨
+        b - a ≤ (tR - tL) / 2 ^ (fuel - 1)) := by
+  obtain ⟨a, b, ⟨l1, l2, l3, l4, l5⟩, hfin⟩ :=
+    bisect_located E hO hh i tol fuel (tL, tR, tev, E.evalAt i tL, E.evalAt i tR) le ⟨h1, h2, rfl, rfl, hopp⟩
+  exact ⟨a, b, l1, l2, l3, l4, l5, hfin⟩
+
+/-- the tolerance `locate` hands to the bisection: `min(128·max(|spacing told|, |spacing t|), |t − told|)` -/
+def locTol (E : RodasEnv ℚ) (s : RodasState ℚ) : ℚ :=
+  E.omin (E.O.mul E.c128 (E.omax (E.O.abs (E.spacing s.told)) (E.O.abs (E.spacing s.t)))) (E.O.abs (E.O.sub s.t s.told))
+
+/-- **`locate` is sound for every event function**: on an accepted step `[told, t]` of length `dt` whose end values of component
+`i` have strictly opposite signs, the secant start lies inside the step, the search is entered, and the time it returns lies in a
+sub-interval of the step across which the component changes sign — of width below the tolerance (or 2⁻⁹⁹ of the step), unless the
+returned time is an exact zero. -/
+theorem C10_locate_sound (E : RodasEnv ℚ) (hO : E.O = ratO) (hh : E.half = 1 / 2) (i : Nat) (s : RodasState ℚ) (dt : ℚ)
+    (hdt : dt = s.t - s.told) (ht : s.told ≤ s.t) (hopp : E.opp (E.evalAt i s.told) (E.evalAt i s.t) = true) :
+    ∃ a b, s.told ≤ a ∧ a ≤ (E.locate dt s (E.evalAt i s.told) (E.evalAt i s.t) i).1 ∧
+      (E.locate dt s (E.evalAt i s.told) (E.evalAt i s.t) i).1 ≤ b ∧ b ≤ s.t ∧
+      E.opp (E.evalAt i a) (E.evalAt i b) = true ∧
+      (E.evalAt i (E.locate dt s (E.evalAt i s.told) (E.evalAt i s.t) i).1 = 0 ∨ b - a < locTol E s ∨
+        b - a ≤ (s.t - s.told) / 2 ^ 99) := by
+  have hle : ∀ x y : ℚ, E.O.le x y = decide (x ≤ y) := by intro x y; rw [hO]; rfl
+  have hsub : ∀ a b : ℚ, E.O.sub a b = a - b := by intro a b; rw [hO]; rfl
+  have hmul : ∀ a b : ℚ, E.O.mul a b = a * b := by intro a b; rw [hO]; rfl
+  have hdiv : ∀ a b : ℚ, E.O.div a b = a / b := by intro a b; rw [hO]; rfl
+  have hsign := (opp_iff E hO _ _).mp hopp
+  have hne : (!(E.O.le (E.evalAt i s.t) (E.evalAt i s.told) && E.O.le (E.evalAt i s.told) (E.evalAt i s.t))) = true := by
+    rcases hsign with ⟨a, b⟩ | ⟨a, b⟩
+    · have : ¬ (E.evalAt i s.told ≤ E.evalAt i s.t) := by linarith
+      simp [hle, this]
+    · have : ¬ (E.evalAt i s.t ≤ E.evalAt i s.told) := by linarith
+      simp [hle, this]
+  have hsec := secant_inside s.told s.t _ _ ht hsign
+  unfold locate
+  unfold locTol
+  simp only [hne, if_true, hsub, hmul, hdiv, hdt]
+  exact C10_search_sound E hO hh i _ 100 s.told s.t _ none hsec.1 hsec.2 hopp
+
+/-- a single detected component: the event block records exactly the time `locate` returns and truncates the step there
+(terminal or not), unless the guard for the start of the run applies -/
+theorem C10_single_component_recorded {α : Type} (E : RodasEnv α) (dt : α) (vo vn : List α) (i : Nat) (s : RodasState α)
+    (hdet : E.detect vo vn i = true)
+    (hfar : E.tooClose s (E.locate dt s (vo.getD i E.O.zero) (vn.getD i E.O.zero) i).1 = false) :
+    (E.eventLoop dt vo vn [i] s).te = (E.locate dt s (vo.getD i E.O.zero) (vn.getD i E.O.zero) i).1 :: s.te ∧
+    (E.eventLoop dt vo vn [i] s).ie = i :: s.ie ∧
+    (E.eventLoop dt vo vn [i] s).t = (E.locate dt s (vo.getD i E.O.zero) (vn.getD i E.O.zero) i).1 := by
+  by_cases hterm : E.isTerminal i = true
+  · simp only [eventLoop, hdet, hfar, hterm, Bool.not_true, Bool.false_eq_true, if_false, if_true]
+    exact ⟨rfl, rfl, rfl⟩
+  · have hterm' : E.isTerminal i = false := by simpa using hterm
+    simp only [eventLoop, hdet, hfar, hterm', Bool.not_true, Bool.false_eq_true, if_false]
+    exact ⟨rfl, rfl, rfl⟩
+
+/-- the hypotheses are satisfiable and the conclusion is about a real search: g(τ) = (τ − 3/10)(τ − 7/10) (non-monotone, two zeros)
+on the step [0, 1/2]: end values 21/100 and −4/100, the secant start is not the zero, the bisection iterates, and the recorded
+time is within 2⁻³⁰ of the falling crossing at 3/10 -/
+example :
+    let E : RodasEnv ℚ := { O := ratO, spacing := fun _ => 1 / 2 ^ 40, uround := 0, tiny := 0, half := 1/2, c128 := 128,
+                            tspan := [0, 1], opt := ⟨1/5, 6, 6, none, none, false, 1/100000000⟩,
+                            events := [⟨0, 0, false⟩], gfun := some fun _ τ => (τ - 3/10) * (τ - 7/10) }
+    let s : RodasState ℚ := { E.init with t := 1/2, told := 0 }
+    E.opp (E.evalAt 0 s.told) (E.evalAt 0 s.t) = true ∧ E.evalAt 0 0 = 21/100 ∧
+      (E.doEvents (1/2) s).te.length = 1 ∧
+      ((E.doEvents (1/2) s).te.all fun τ => decide (3/10 - 1/2^30 ≤ τ ∧ τ ≤ 3/10 + 1/2^30 ∧ τ ≠ 3/10)) = true := by
   decide +kernel
 
 /-- the search for the event time no longer depends on the scale of the event function: for every scale c > 0 the values c·v0 < 0 < c·v1
